@@ -214,6 +214,7 @@ type Obs struct {
 	SyncVerRows  int                         `json:"syncVerRows"`
 	SyncVerAt    int64                       `json:"syncVerAt"`
 	Dump         map[string]string           `json:"dump"`
+	MintOther    map[string][]int            `json:"mintOther"` // MINT's non-zero balances in assets outside the universe
 }
 
 func dense(kr *gen.Keyring, assets []string, names []string, b map[factom.FAAddress]map[string]uint64, rowsOnly bool) (map[string]map[string][]int, []string) {
@@ -240,7 +241,7 @@ func dense(kr *gen.Keyring, assets []string, names []string, b map[factom.FAAddr
 			row[a] = gen.Limbs(m[a])
 		}
 		for t, v := range m {
-			if !inU[t] && v != 0 {
+			if !inU[t] && v != 0 && n != "MINT" {
 				outside = append(outside, fmt.Sprintf("%s:%s=%d", n, t, v))
 			}
 		}
@@ -284,6 +285,18 @@ func (r *Runner) Observe(h uint32) (*Obs, error) {
 	}
 	names := kr.Names()
 	o.Bal, o.Outside = dense(kr, assets, names, bal, false)
+	o.MintOther = map[string][]int{}
+	if mk, ok := kr.ByName["MINT"]; ok {
+		inU := map[string]bool{}
+		for _, a := range assets {
+			inU[a] = true
+		}
+		for t, v := range bal[mk.FA] {
+			if !inU[t] && v != 0 {
+				o.MintOther[t] = gen.Limbs(v)
+			}
+		}
+	}
 	o.Supply = map[string][]int{}
 	sums := map[string]uint64{}
 	for _, m := range bal {
